@@ -847,6 +847,37 @@ def _const_sign(x: "SR"):
         return 1 if val > 0 else -1
 
 
+def subst(x: "SR", mapping: dict) -> "SR":
+    """replace atoms by SR values (polynomial substitution in numerator and denominator factors)"""
+    def psub(p):
+        tot = ZERO()
+        for m, c in p.items():
+            term = SR.const(c)
+            for at, e in m:
+                base = mapping.get(at)
+                if base is None:
+                    base = SR.atom(at)
+                term = term * (base ** e if e != 1 else base)
+            tot = tot + term
+        return tot
+    if not (x.atomset() & set(mapping)):
+        return x
+    r = psub(x.n)
+    for k, e in x.d.items():
+        r = r / (psub(REG.key2poly[k]) ** e)
+    return r
+
+
+def expand_defs(x: "SR") -> "SR":
+    """substitute symbols introduced with define() by their defining values (repeatedly)"""
+    for _ in range(8):
+        m = {a: REG.atoms[a].data for a in x.atomset() if REG.atoms[a].kind == "def"}
+        if not m:
+            return x
+        x = subst(x, m)
+    return x
+
+
 def ZERO():
     if SR._zero is None:
         SR._zero = SR({}, {})
@@ -1053,6 +1084,7 @@ def sqrt(x) -> SR:
     x = lift_strict(x)
     if isinstance(x, SC):
         raise SymbolicLeak("sqrt of complex")
+    x = _canon_arg(x)
     if x.is_const():
         return sqrt_const(x.cval())
     # split off the rational content so that sqrt(c*R) = sqrt(c)*sqrt(R) with R monic
@@ -1148,7 +1180,7 @@ def trig(x: SR):
     # congruence with earlier phases (cos/sin are functions): x == y -> same pair, x == -y -> mirrored pair
     if ENGINE is not None and ENGINE.o.get("trig_congruence", True) and len(REG.trig_args) <= 48:
         for (y, cy, sy) in REG.trig_args:
-            if not (x.atomset() & y.atomset()):
+            if cy is None or not (x.atomset() & y.atomset()):
                 continue
             e1 = x == y
             if isinstance(e1, SB):
@@ -1236,6 +1268,24 @@ def pow_atom(base: SR, e: SR) -> SR:
 def arctan2(y: SR, x: SR):
     rho = sqrt(x * x + y * y)
     return SAngle(x / rho, y / rho, kind="atan2")
+
+
+def angle_value(ang: "SAngle") -> SR:
+    """a real symbol for the principal value of an angle known through (cos, sin); cos/sin of the symbol resolve
+    to the algebraic pair through the trig cache"""
+    key = ("angle", ang.c.key(), ang.s.key())
+    hit = REG.fn_cache.get(key)
+    if hit is not None:
+        return hit
+    a = REG.new_atom(f"ang!{len(REG.atoms)}", "angle", data=ang,
+                     fe=lambda env, g=ang: math.atan2(g.s.feval(env), g.c.feval(env)),
+                     deps=ang.c.atomset() | ang.s.atomset())
+    REG.uninterpreted += 1
+    v = SR.atom(a.idx)
+    REG.trig_cache[v.key()] = (ang.c, ang.s)
+    REG.trig_args.append((v, None, None))
+    REG.fn_cache[key] = v
+    return v
 
 
 def where(c, a, b):
